@@ -462,6 +462,9 @@ static int sink_catch(struct uprobe *uprobe, struct upipe *upipe, int event, va_
 }
 
 /* ------------------------------------------------------------ requests */
+/* optional reaction of an extension to the answer of an application request (e.g. one-shot requests that
+ * unregister themselves from inside their call-back), called after the reqcb line was printed */
+__attribute__((weak)) void pd_reqcb_ext(struct vreq *v);
 static int req_cb(struct urequest *r, va_list args)
 {
     struct vreq *v = (struct vreq *)r;
@@ -498,6 +501,7 @@ static int req_cb(struct urequest *r, va_list args)
         break;
     }
     }
+    if (pd_reqcb_ext) pd_reqcb_ext(v);
     return UBASE_ERR_NONE;
 }
 
